@@ -18,7 +18,8 @@ readers of `Drv.Http`.
    I = {"s":[cp…]} | {"i":n}          T = transport form of Drv.Json
  "stdio":{"crlf":[b…],"cuts":[n…]},
  "json":[{"id":I|null,"status":n,"sess":str|null,"batch":b}…] | null,
- "httpsse":[{"post":{…},"evs":[{"name":"absent"|"message"|"response","nc":C,"dc":C}…],"eols":[b…],"tail":"full"|"noblank"|"noeol"}…],
+ "httpsse":[{"post":{…},"evs":[{"name":"absent"|"message"|"response","nc":C,"dc":C,"after":[ignored…],"before":[E…]}…],
+             "eols":[b…],"tail":"full"|"noblank"|"noeol","trailing":[E…]}…],      E = an event of Drv.Http (`eventOf`)
  "sse":{"pre":[{"k":"endpoint"|"keepalive"|"comment","d":str,"crlf":b}…],"crlf":[b…],"cuts":[n…],"acks":[n…]} | null}
 -> {"stdio":[V…],"json":[V…]|null,"httpsse":[V…],"sse":[V…]|null}
    V = {"made":true} | {"id":I|null,"method":[cp…]|null,"params":T|null,"result":T|null,"error":T|null}
@@ -130,8 +131,14 @@ def getEvChoice (j : Json) : Except String EvChoice := do
     | "message" => pure EvName.message
     | "response" => pure EvName.response
     | x => throw s!"bad event name {x}"
+  let after ← match j.getObjValAs? (Array Json) "after" with
+    | .ok a => a.toList.mapM Verif.Drv.Http.ignoredOf
+    | .error _ => pure []
+  let before ← match j.getObjValAs? (Array Json) "before" with
+    | .ok a => a.toList.mapM Verif.Drv.Http.eventOf
+    | .error _ => pure []
   return { name := name, nameChoice := ← Verif.Drv.Http.choiceOf (← j.getObjVal? "nc"),
-           dataChoice := ← Verif.Drv.Http.choiceOf (← j.getObjVal? "dc") }
+           dataChoice := ← Verif.Drv.Http.choiceOf (← j.getObjVal? "dc"), after := after, before := before }
 
 def getBody (j : Json) : Except String SseBodyChoice := do
   let tail ← match (← j.getObjValAs? String "tail") with
@@ -141,7 +148,10 @@ def getBody (j : Json) : Except String SseBodyChoice := do
     | x => throw s!"bad tail {x}"
   return { post := ← getPost (← j.getObjVal? "post"),
            evs := ← (← j.getObjValAs? (Array Json) "evs").toList.mapM getEvChoice,
-           eols := (← j.getObjValAs? (Array Bool) "eols").toList, tail := tail }
+           eols := (← j.getObjValAs? (Array Bool) "eols").toList, tail := tail,
+           trailing := ← (match j.getObjValAs? (Array Json) "trailing" with
+             | .ok a => a.toList.mapM Verif.Drv.Http.eventOf
+             | .error _ => pure []) }
 
 def getPre (j : Json) : Except String (SseReq.Ev × Bool) := do
   let d := (← j.getObjValAs? String "d").toList
